@@ -56,7 +56,7 @@ def main(argv):
         ps = pygen.generate(args.seed, 1500 if quick else 12000, max_depth=3 if quick else 4, max_stmts=3 if quick else 4)
         progs = [(p.source(), p.feats) for p in ps]
         # second domain: restructured graphs of AST blocks (closed CFGs decorated with AST payloads)
-        for inp in rb.domain_inputs(args.tier, args.seed, "XR", scale=0.6 if quick else 0.5):
+        for inp in rb.domain_inputs(args.tier, args.seed, "XRK", scale=0.6 if quick else 0.5):
             progs.append((inp["g"], ["graph"]))
     d = rb.workdir(PROP)
     try:
